@@ -333,16 +333,35 @@ NamespacesHandler::addExtensionNamespaceURI(
 const XalanDOMString*
 NamespacesHandler::getNamespace(const XalanDOMString&   thePrefix) const
 {
-    const NamespacesVectorType::value_type*     theNamespace =
-        findByPrefix(m_excludedResultPrefixes, thePrefix);
+    // Look at the declarations that are in scope and not excluded first...
+    const XalanDOMString* const     theURI =
+        findNamespace(m_namespaceDeclarations, thePrefix);
 
-    if (theNamespace != 0)
+    if (theURI != 0)
     {
-        return &theNamespace->getURI();
+        return theURI;
     }
     else
     {
-        return findNamespace(m_namespaceDeclarations, thePrefix);
+        // The excluded prefixes also hold the entries inherited from the parent
+        // element, and such an entry is stale when the prefix has been bound to
+        // another namespace since.  The element's own excluded declarations were
+        // added after the inherited ones, so search from the back.
+        NamespacesVectorType::const_reverse_iterator    i =
+            m_excludedResultPrefixes.rbegin();
+
+        const NamespacesVectorType::const_reverse_iterator  theEnd =
+            m_excludedResultPrefixes.rend();
+
+        for(; i != theEnd; ++i)
+        {
+            if ((*i).getPrefix() == thePrefix)
+            {
+                return &(*i).getURI();
+            }
+        }
+
+        return 0;
     }
 }
 
